@@ -31,6 +31,7 @@ UNITS = {
                  "precondition of new(): rows are Ok, seqs strictly increasing within [start_seq,last_seq], last_seq < u64::MAX, summed estimated size fits usize (SQL `ORDER BY seq` + `seq >= start AND seq <= end` at the call sites; not proved)",
                  "error rows: after Some(Err) nothing is promised (callers break)",
              ]),
+        dict(kind="depcheck", name="depcheck_c08"),
         dict(kind="verus", name="c08_chunk_range_v", template="specs/c08_chunk_range.vrs",
              under_contract=["chunk_range"], vacuity=["chunk_range"],
              trusted=["step_by_map: std `RangeInclusive::step_by(n)` yields start, start+n, … while <= end, and `.map(f)` applies f to exactly those values in order (std adapter contract; the bounded Kani unit c08_chunk_range runs the real std adapters)",
@@ -308,6 +309,7 @@ UNITS["C10"] = [
 ]
 
 UNITS["C14"] = [
+    dict(kind="depcheck", name="depcheck_c14"),
     dict(kind="structural", name="c14_row_binding", check="updates_row_binding", file="crates/klukai-types/src/updates.rs", fn="match_changes_from_db_version",
          trusted=["rusqlite returns columns in SELECT order"]),
     dict(kind="structural", name="c14_lag_stops", check="lagged_arm_returns", file="crates/klukai-agent/src/api/public/update.rs", fn="forward_update_bytes_to_body_sender",
